@@ -197,6 +197,28 @@ class Interp:
         self.forks = 0
         self.unknown_tests: List[str] = []
 
+    def _simp(self, e: ast.expr, env: Dict[str, ast.expr]) -> ast.expr:
+        """conditional expressions whose test the scenario decides are replaced by the arm taken"""
+        if not any(isinstance(n, ast.IfExp) for n in ast.walk(e)):
+            return e
+        interp = self
+
+        class T(ast.NodeTransformer):
+            def visit_IfExp(self, node):
+                node = self.generic_visit(node)
+                self_env = env
+                interp._env = self_env
+                t = interp._tv(node.test)
+                if t is True:
+                    return node.body
+                if t is False:
+                    return node.orelse
+                return node
+        try:
+            return ast.fix_missing_locations(T().visit(copy.deepcopy(e)))
+        except Exception:
+            return e
+
     # ----------------------------------------------------------------- truth
     def tv(self, e: ast.expr, env: Dict[str, ast.expr]) -> Optional[bool]:
         self._env = env
@@ -424,7 +446,10 @@ class Interp:
             if r:
                 return [r]
             skip = state.fork()
-            it = subst(st.iter, state.env)
+            it = self._simp(subst(st.iter, state.env), state.env)
+            if isinstance(it, (ast.List, ast.Tuple, ast.Set)) and not it.elts:
+                skip.trace.append(f"L{st.lineno}: loop skipped")
+                return self.block(st.orelse, [skip]) if st.orelse else [Flow("next", skip)]
             elem = ast.Call(func=ast.Name(id="<elem>", ctx=ast.Load()), args=[it], keywords=[])
             self._bind(st.target, ast.fix_missing_locations(elem), state)
             state.trace.append(f"L{st.lineno}: loop body once")
